@@ -16,7 +16,7 @@ backoff init=<ns> step=<ns>             → ok      (the shortened ExponentialBa
 task <id> q=<q> hook=<h> type=<n> af=<0|1> bt=<n> grp=<g> eos=<0|1> ctxs=<b:t:g;…> [at=head] → af=… grp=… queue=<ids>
 begin q=<q>                             → idle | noexec task=<id> | norun task=<id> queue=… | exec task=<id> hook=<h> ctxs=… queue=…
 end q=<q> ok=<0|1>                      → status=<success|fail> fc=<n> sleep=<ns> queue=<ids>
-oracle begin q=<q> task=<id> gap=<ns>   → retry of a failed task: same task, gap ≥ its back-off ≥ initial
+oracle begin q=<q> task=<id> gap=<ns> ctxs=…  → retry of a failed task: same task, gap ≥ its back-off ≥ initial, the contexts of the failed run shown again (up to group compaction)
 oracle nocombine q=<q> ctxs=… queue=<ids>  → (C07.6) ungrouped Synchronization head: own contexts, queue untouched
 oracle end q=<q> ok=… task=<id> ctxs=… sleep=<ns> after=<id>,<af>,<ctxs>|…   → the property clauses
 ```
@@ -34,6 +34,7 @@ structure QSt where
   s : Retry.State := {}
   running : Option (Retry.State × List Task) := none   -- state at `begin`, tasks appended since
   lastFailed : Option (Nat × Nat) := none              -- (task id, back-off) of a failure that must be retried
+  lastObs : List Ctx := []                             -- contexts the hook showed in the last failed run
 
 structure St where
   versions : List (Nat × Nat) := []
@@ -209,7 +210,7 @@ def step (st : St) (toks : List String) : St × String :=
           | t :: _ =>
             if s1.items.any (·.id == t.id) then ("fail", s1.fc t.id, some (t.id, s1.sleep))
             else ("success", s1.fc t.id, none)
-        let st' := st.setQ qn { s := s2, running := none, lastFailed := lastFailed }
+        let st' := st.setQ qn { s := s2, running := none, lastFailed := lastFailed, lastObs := q.lastObs }
         let noexec := match s0.items with
           | t :: _ => t.typ != 0 || !t.hasMeta
           | [] => false
@@ -217,17 +218,19 @@ def step (st : St) (toks : List String) : St × String :=
         else (st', s!"status={status} fc={fc} sleep={s1.sleep} queue={showIds s2.items}")
     | _, _ => (st, "bad-op")
   | "oracle" :: "begin" :: rest =>
-    match natKv "q" rest 0, natKv "task" rest 0, natKv "gap" rest 0 with
-    | some qn, some task, some gap =>
+    match natKv "q" rest 0, natKv "task" rest 0, natKv "gap" rest 0, parseCtxs ((kv? "ctxs" rest).getD "-") with
+    | some qn, some task, some gap, some ctxs =>
       -- asked after `begin`: `running` holds the state at begin; `lastFailed` the failure before it
       match (st.q qn).lastFailed with
       | none => (st, "true")
       | some (f, bo) =>
+        let missing := (st.q qn).lastObs.filter (fun c => !covered c ctxs)
         if task != f then (st, s!"false another-task-ran-before-the-retry want-task={f}")
         else if bo < st.boInit then (st, "false backoff-shorter-than-initial")
         else if gap < bo then (st, s!"false retried-before-backoff-elapsed backoff={bo}")
+        else if !missing.isEmpty then (st, s!"false retry-lost-contexts missing={showCtxs missing}")
         else (st, "true")
-    | _, _, _ => (st, "bad-op")
+    | _, _, _, _ => (st, "bad-op")
   | "oracle" :: "nocombine" :: rest =>
     -- C07.6 on the real operator, asked after `begin`: an ungrouped kubernetes Synchronization head
     -- task is executed with its own contexts only and nothing leaves the queue
@@ -252,7 +255,10 @@ def step (st : St) (toks : List String) : St × String :=
       -- asked right before `end`: `running` still holds the state at begin
       match (st.q qn).running with
       | none => (st, "bad-op not-running")
-      | some (s0, _) => (st, oracleEnd s0 st.boInit ok task ctxs sleep after)
+      | some (s0, _) =>
+        -- remember what the hook was shown: the retry must show it again (up to group compaction)
+        let st' := st.setQ qn { st.q qn with lastObs := if ok then [] else ctxs }
+        (st', oracleEnd s0 st.boInit ok task ctxs sleep after)
     | _, _, _, _, _, _, _ => (st, "bad-op")
   | _ => (st, "bad-op")
 
